@@ -259,12 +259,20 @@ proof fn lemma_search_c12(st: &Store, query: &TextRef, ixs: Seq<usize>, hs: Seq<
         lemma_rec_le_trans(&recs[ixs[i] as int], &recs[ixs.last() as int], &recs[j]);
     }
 }
+// C06 / C07: the returned hits are in the order of compare_hits (descending lexicographic order of the score slots), and no passing
+// candidate left out is before the last returned one: the result is the first `limit` entries of the list an unlimited search gives
+pub open spec fn order_ok(hs: Seq<Hit>, pos: Seq<int>, query: &TextRef) -> bool {
+    (forall|a: int, b: int| 0 <= a <= b < pos.len() ==> desc_le(hs[#[trigger] pos[a]].scores.0, hs[#[trigger] pos[b]].scores.0))
+    && (forall|i: int| 0 <= i < hs.len() && hm_spec(query, &#[trigger] hs[i]) && !pos.contains(i) && pos.len() > 0 ==> desc_le(hs[pos[pos.len() - 1]].scores.0, hs[i].scores.0))
+}
 // positions (in the trace) of the selected hits: the filter's position map composed with the selection's
 pub open spec fn pos_of(hs: Seq<Hit>, query: &TextRef, n: nat, idx: Seq<int>) -> Seq<int> { Seq::new(n, |k: int| fmap(hs, passes(query))[idx[k]]) }
 proof fn lemma_select(hs: Seq<Hit>, items: Seq<Hit>, sel: Seq<Hit>, idx: Seq<int>, query: &TextRef, limit: usize, recs: Seq<Record>)
     requires items == hs.filter(passes(query)), selection(sel, items, idx), sel.len() == (if items.len() < limit { items.len() } else { limit as nat }),
         forall|m: int| 0 <= m < items.len() ==> good_hit(#[trigger] items[m], recs, query),
-    ensures ({ let pos = pos_of(hs, query, sel.len(), idx);
+        ls_sorted(sel, CmpHits), ls_best(sel, items, idx, CmpHits),
+    ensures order_ok(hs, pos_of(hs, query, sel.len(), idx), query),
+        ({ let pos = pos_of(hs, query, sel.len(), idx);
         &&& pos.len() == sel.len() && pos.no_duplicates()
         &&& forall|k: int| 0 <= k < sel.len() ==> 0 <= #[trigger] pos[k] < hs.len() && hm_spec(query, &hs[pos[k]]) && sel[k] == hs[pos[k]]
         &&& forall|m: int| 0 <= m < sel.len() ==> good_hit(#[trigger] sel[m], recs, query)
@@ -281,6 +289,22 @@ proof fn lemma_select(hs: Seq<Hit>, items: Seq<Hit>, sel: Seq<Hit>, idx: Seq<int
         assert(0 <= idx[k] < items.len());
     }
     assert forall|m: int| 0 <= m < sel.len() implies good_hit(#[trigger] sel[m], recs, query) by { assert(sel[m] == items[idx[m]]); }
+    // order: LS-ord of the selection, read through the comparator's link and the position map
+    assert forall|a: int, b: int| 0 <= a <= b < pos.len() implies desc_le(hs[#[trigger] pos[a]].scores.0, hs[#[trigger] pos[b]].scores.0) by {
+        assert(sel[a] == hs[pos[a]] && sel[b] == hs[pos[b]]);
+        assert(ls_le(CmpHits, sel[a], sel[b]));
+        hitx::ls_le_hits(sel[a], sel[b]);
+    }
+    lemma_fmap_onto(hs, passes(query));
+    assert forall|i: int| 0 <= i < hs.len() && hm_spec(query, &#[trigger] hs[i]) && !pos.contains(i) && pos.len() > 0 implies desc_le(hs[pos[pos.len() - 1]].scores.0, hs[i].scores.0) by {
+        let m = choose|m: int| 0 <= m < fm.len() && fm[m] == i;
+        if idx.contains(m) { let k = choose|k: int| 0 <= k < idx.len() && idx[k] == m; assert(pos[k] == i); assert(false); }
+        assert(items[m] == hs[i]);
+        let z = sel.len() - 1;
+        assert(sel[z] == hs[pos[z]]);
+        assert(ls_le(CmpHits, sel.last(), items[m]));
+        hitx::ls_le_hits(sel[z], items[m]);
+    }
     if items.len() <= limit {
         lemma_selection_full(sel, items, idx);
         lemma_fmap_onto(hs, passes(query));
@@ -723,6 +747,8 @@ impl Store {
                 && cand_src(cands, self, query) // [C05 C03 C04 C12 C06]
                 // C12: for a query without words the list is in rating order and nothing left out is before a listed record
                 && rank_ok(cands, pos, self.records@, query) // [C12]
+                // C06 / C07: in the order of compare_hits, and no passing candidate left out is before the last returned one
+                && order_ok(hs, pos, query) // [C06 C07 C08]
                 // and when the passing candidates fit under the limit every one of them is returned
                 && (hs.filter(passes(query)).len() <= self.limit ==> forall|i: int| 0 <= i < hs.len() && hm_spec(query, &#[trigger] hs[i]) ==> pos.contains(i)), // [C06 C03 C04]
             // C05: a hit for a query with words is a record whose title shares a gram with the query
@@ -802,15 +828,16 @@ impl Store {
         proof { lemma_ls_ok_hits(); }
         let __sel0 = limit_sort_all(__items0, self.limit, CmpHits);
         proof { assert(trace_ok(ixs@, hs, recs, query)); }
-        let ghost idx = choose|idx: Seq<int>| selection(__sel0@, __items0@, idx);
+        let ghost idx = choose|idx: Seq<int>| selection(__sel0@, __items0@, idx) && ls_best(__sel0@, __items0@, idx, CmpHits);
         let ghost pos = pos_of(hs, query, __sel0@.len(), idx);
         proof { lemma_select(hs, __items0@, __sel0@, idx, query, self.limit, recs); }
         let ghost covered: bool = forall|i: int| 0 <= i < hs.len() && hm_spec(query, &#[trigger] hs[i]) ==> pos.contains(i);
         let ghost sorted_hits: bool = ls_sorted(__sel0@, CmpHits);
+        let ghost ordered: bool = order_ok(hs, pos, query);
         let mut __out0: Vec<SearchResult> = Vec::new();
         let mut __q0 = 0;
         while __q0 < __sel0.len()
-            invariant __q0 <= __sel0@.len(), __sel0@.len() <= self.limit, trace_ok(ixs@, hs, recs, query), __sel0@.len() == (if hs.filter(passes(query)).len() < self.limit { hs.filter(passes(query)).len() } else { self.limit as nat }), __out0@.len() == __q0, recs == self.records@, pos.len() == __sel0@.len(), pos.no_duplicates(), cand_src(ixs@, self, query), hs.filter(passes(query)).len() <= self.limit ==> covered, sorted_hits, sorted_hits == ls_sorted(__sel0@, CmpHits), covered == (forall|i: int| 0 <= i < hs.len() && hm_spec(query, &#[trigger] hs[i]) ==> pos.contains(i)),
+            invariant __q0 <= __sel0@.len(), __sel0@.len() <= self.limit, trace_ok(ixs@, hs, recs, query), __sel0@.len() == (if hs.filter(passes(query)).len() < self.limit { hs.filter(passes(query)).len() } else { self.limit as nat }), __out0@.len() == __q0, recs == self.records@, pos.len() == __sel0@.len(), pos.no_duplicates(), cand_src(ixs@, self, query), hs.filter(passes(query)).len() <= self.limit ==> covered, sorted_hits, sorted_hits == ls_sorted(__sel0@, CmpHits), ordered, ordered == order_ok(hs, pos, query), covered == (forall|i: int| 0 <= i < hs.len() && hm_spec(query, &#[trigger] hs[i]) ==> pos.contains(i)),
                 forall|k: int| 0 <= k < __sel0@.len() ==> 0 <= #[trigger] pos[k] < hs.len() && hm_spec(query, &hs[pos[k]]) && __sel0@[k] == hs[pos[k]],
                 self.srch_ok(), dividers.0@ == self.dividers.0@, dividers.1@ == self.dividers.1@,
                 forall|m: int| 0 <= m < __sel0@.len() ==> good_hit(#[trigger] __sel0@[m], recs, query),
